@@ -315,6 +315,10 @@ func checkPngFields(p *Program, r *Report) {
 	r.Check(wOK && n > 0, "C05.fields", "png width", pos, fmt.Sprintf("on all %d explored success paths width = BE32 of IHDR data[0:4]", n), wWhy)
 	r.Check(hOK && n > 0, "C05.fields", "png height", pos, "height = BE32 of IHDR data[4:8]", hWhy)
 	r.Check(bOK && n > 0, "C05.fields", "png bits", pos, "bits per component = IHDR data[8]", bWhy)
+	// the chunk chain is explored for short profile names; a maximum-length (79-byte) name
+	// must have its terminator consumed too, or every later chunk header — IHDR included when
+	// iCCP precedes it — is read one byte off
+	r.Check(pngNameLoopBound(fn), "C05.dispatch", "png iCCP name terminator consumed", pos, "the iCCP profile-name loop can read 80 bytes (79-byte name + NUL): chunk boundaries stay aligned for every legal name length", "the iCCP profile-name loop cannot read the terminator of a 79-byte name: the parser falls out of step with the chunk stream and a well-formed file fails to load")
 	r.Check(tagOK && n > 0, "C05.guards", "png IHDR tag", pos, "the chunk providing the dimensions has type 'IHDR'", tagWhy)
 	// the signature must be on every success path
 	sigAll := n > 0
